@@ -5,6 +5,7 @@
 //!   op  =  `ok` | `err` | `panic`            one blocking call (`SharedTaskRunner::run_with_result`, the call
 //!                                            `Database::execute` makes), waited for before the next op
 //!       |  `burst:<k>,<k>,…`                 all jobs submitted first (`SharedTaskRunner::spawn`, FIFO), then waited for
+//!       |  `idle`                            nothing is submitted for 350 ms (no job, no output word; the model skips it)
 //! Output:  one word per job in submission order — `answered-ok`, `answered-err`, `answered-panic-as-error`, `lost`
 //!          (`timed-out` / `rejected` never appear in the model) — then `| live=<workers still alive>`.
 use super::{Case, Engine, Tier};
@@ -34,6 +35,8 @@ fn kind(s: &str) -> Option<JobKind> {
 pub enum Op {
     Call(JobKind),
     Burst(Vec<JobKind>),
+    /// nothing is submitted for 350 ms: idle workers must still be there afterwards
+    Idle,
 }
 
 /// `seq <size> | op ; op ; …` → (size, ops); `None` = malformed (`bad-op` on both sides).
@@ -51,6 +54,10 @@ pub fn parse(line: &str) -> Option<(usize, Vec<Op>)> {
     let mut jobs = 0;
     for o in body.split(';') {
         let o = o.trim();
+        if o == "idle" {
+            ops.push(Op::Idle);
+            continue;
+        }
         if let Some(ks) = o.strip_prefix("burst:") {
             let ks: Option<Vec<JobKind>> = ks.split(',').map(kind).collect();
             let ks = ks?;
@@ -109,6 +116,7 @@ impl Engine for PoolEngine {
                         let t = pool.submit_blocking_call(*k);
                         words.push(word(pool.wait(t, grace, max_wait)));
                     }
+                    Op::Idle => std::thread::sleep(Duration::from_millis(350)),
                     Op::Burst(ks) => {
                         let ts: Vec<_> = ks.iter().map(|k| pool.submit(*k)).collect();
                         for t in ts {
@@ -204,6 +212,12 @@ impl Engine for PoolEngine {
             tags.push(format!("jobs{}", if jobs <= 4 { "1-4" } else if jobs <= 16 { "5-16" } else { "17+" }));
             if has_err || panics > 0 || queued_burst {
                 tags.push("nt".into());
+            }
+            // one case in twelve: the client pauses in the middle (idle workers must not go away: the next job is answered)
+            if i % 12 == 5 && ops.len() >= 2 {
+                let at = 1 + rng.below(ops.len() as u64 - 1) as usize;
+                ops.insert(at, "idle".to_string());
+                tags.push("idle".into());
             }
             let line = format!("seq {} | {}", size, ops.join(" ; "));
             cases.push(Case { line, tags });
